@@ -20,7 +20,6 @@ from harness import interp as I
 from vgi_rpc.rpc import (
     MethodNotImplementedError,
     ProtocolVersionError,
-    RpcConnection,
     RpcError,
     ServerDrainingError,
     SessionLostError,
